@@ -32,6 +32,11 @@ def run(ctx):
     os.makedirs(work, exist_ok=True)
     with concurrent.futures.ThreadPoolExecutor(max_workers=32) as ex:
         sres = list(ex.map(lambda iq: pamfam.run_sequence(exe, work, iq[0], iq[1]), enumerate(seqs)))
+    for k, r in enumerate(sres):       # (see pamfam.run_all: results that a late server thread could explain are re-run alone)
+        for _ in range(2):
+            if r["rcs"] is not None and len(r["rcs"]) == len(r["edges"]) and not any(e["success"] and rc != 0 for e, rc in zip(r["edges"], r["rcs"])):
+                break
+            r = sres[k] = pamfam.run_sequence(exe, work, k, seqs[k])
     nseq = pamfam.judge_sequences(ctx, sres)
     cov = ctx.coverage
     cov.update({"states": res["distinct"], "transitions": res["generated"], "traces_validated_against_impl": n,
